@@ -34,19 +34,19 @@ func (b BuildConfig) String() string { return b.GOOS + "/" + b.GOARCH }
 
 // Ctx is one loaded, type-checked configuration of the repository.
 type Ctx struct {
-	Repo    string
-	Config  BuildConfig
-	Fset    *token.FileSet
-	Pkgs    []*packages.Package // rare/... packages only
-	ByPath  map[string]*packages.Package
-	Prog    *ssa.Program
-	SSAPkg  map[string]*ssa.Package
-	cg      *callgraph.Graph
-	allFns  map[*ssa.Function]bool
-	NFuncs  int
-	LoadDur time.Duration
-	Overlay map[string][]byte // non-nil for the normalised view: file -> replaced content
-	RenameNotes []string      // renames that were undone before analysis (unrename.go)
+	Repo        string
+	Config      BuildConfig
+	Fset        *token.FileSet
+	Pkgs        []*packages.Package // rare/... packages only
+	ByPath      map[string]*packages.Package
+	Prog        *ssa.Program
+	SSAPkg      map[string]*ssa.Package
+	cg          *callgraph.Graph
+	allFns      map[*ssa.Function]bool
+	NFuncs      int
+	LoadDur     time.Duration
+	Overlay     map[string][]byte // non-nil for the normalised view: file -> replaced content
+	RenameNotes []string          // renames that were undone before analysis (unrename.go)
 }
 
 func goEnv(extra ...string) []string {
@@ -491,10 +491,11 @@ func (r *Report) Finish(verifDir string, seed int64, t0 time.Time, c *Ctx, confi
 
 // FuncInfo is a resolved function/method declaration of the repository.
 type FuncInfo struct {
-	Pkg  *packages.Package
-	Decl *ast.FuncDecl
-	Obj  *types.Func
-	Name string // pkgpath.(*T).M
+	Pkg         *packages.Package
+	Decl        *ast.FuncDecl
+	Obj         *types.Func
+	Name        string // pkgpath.(*T).M
+	InlinedInto string // non-empty: the anchor is gone and this is the body of its sole frozen caller
 }
 
 // Func resolves a function by package path and name; name is "F", "T.M" or
@@ -547,7 +548,7 @@ func (c *Ctx) Func(pkgPath, name string) *FuncInfo {
 	want, ok := frozenAnchors[pkgPath+"|"+name]
 	p := c.ByPath[pkgPath]
 	if !ok || want == "" || p == nil {
-		return nil
+		return c.inlinedInto(pkgPath, name)
 	}
 	var cands []*ast.FuncDecl
 	for _, f := range p.Syntax {
@@ -572,7 +573,7 @@ func (c *Ctx) Func(pkgPath, name string) *FuncInfo {
 		}
 	}
 	if len(cands) != 1 {
-		return nil
+		return c.inlinedInto(pkgPath, name)
 	}
 	fd := cands[0]
 	obj, _ := p.TypesInfo.Defs[fd.Name].(*types.Func)
@@ -580,6 +581,28 @@ func (c *Ctx) Func(pkgPath, name string) *FuncInfo {
 		return nil
 	}
 	return &FuncInfo{Pkg: p, Decl: fd, Obj: obj, Name: pkgPath + "." + name}
+}
+
+// inlinedInto: an anchor that existed on the pinned tree, is gone now, and had
+// exactly one caller there was most likely folded into that caller
+// (inline-method). The rule then reads the caller's body under the anchor's
+// frozen name; if the construct it looks for is not there it fails as before.
+func (c *Ctx) inlinedInto(pkgPath, name string) *FuncInfo {
+	caller := frozenSoleCaller(pkgPath, name)
+	if debugAnchor {
+		fmt.Fprintf(os.Stderr, "inlinedInto %s %s -> caller %q\n", pkgPath, name, caller)
+	}
+	if caller == "" {
+		return nil
+	}
+	fi := c.funcByName(pkgPath, caller)
+	if debugAnchor {
+		fmt.Fprintf(os.Stderr, "  caller resolved: %v\n", fi != nil)
+	}
+	if fi == nil {
+		return nil
+	}
+	return &FuncInfo{Pkg: fi.Pkg, Decl: fi.Decl, Obj: fi.Obj, Name: pkgPath + "." + name, InlinedInto: caller}
 }
 
 func (c *Ctx) funcByName(pkgPath, name string) *FuncInfo {
@@ -778,7 +801,7 @@ func resolveRenames(c *Ctx) {
 		if c.funcByName(parts[0], parts[1]) != nil {
 			continue // present under its own name
 		}
-		if fi := c.Func(parts[0], parts[1]); fi != nil {
+		if fi := c.Func(parts[0], parts[1]); fi != nil && fi.InlinedInto == "" {
 			hits = append(hits, hit{fi, parts[0], parts[1]})
 		}
 	}
